@@ -34,10 +34,7 @@ func c09B4(r *core.R) {
 	nx := m.next
 	errOut := c09FieldOfKind(f.outPairT, pbfIsError)
 	isDec := func(e ast.Expr) *types.Var {
-		if fl := fieldOf(info, e); fl != nil && namedPath(selRecv(info, ast.Unparen(e))) == namedPath(m.decoderT) {
-			return fl
-		}
-		return nil
+		return c09DecoderField(m, e)
 	}
 	isPair := func(e ast.Expr) bool {
 		o := rootObj(info, e)
@@ -228,6 +225,12 @@ func c09B4(r *core.R) {
 						st |= curDone
 					case c09NamedOf(lf.Type()) == f.outPairT && objOf(info, rhs) != nil && isPair(rhs):
 						st |= stored
+					case c02IsAddrOfPair(info, rhs, isPair) && namedPath(lf.Type()) == namedPath(f.outPairT):
+						// the consumer keeps a pointer to the received pair
+						st |= stored
+					case fieldOf(info, rhs) == f.objsOut && isPair(rhs):
+						// the consumer keeps the current block as separate fields: storing the pair's objects makes it current
+						st |= stored
 					}
 				}
 			}
@@ -292,8 +295,9 @@ func c09B5(r *core.R) {
 			ast.Inspect(e, func(x ast.Node) bool {
 				switch y := x.(type) {
 				case *ast.SelectorExpr:
-					if s := info.Selections[y]; s != nil && s.Kind() == types.FieldVal && namedPath(s.Recv()) == namedPath(m.decoderT) {
-						got = append(got, s.Obj().(*types.Var))
+					if fl := c09DecoderField(m, y); fl != nil {
+						got = append(got, fl)
+						return false // the leaf field of the chain is what is returned
 					}
 				case *ast.CallExpr:
 					if fn := callee(info, y); fn != nil && m.funcs[fn] != nil && depth < 3 {
@@ -333,4 +337,10 @@ func c09B5(r *core.R) {
 			r.Bad(c, fi.Decl.Pos(), "returns %v; it must return the %s offset (%s), the field %s", names, spec.what, spec.want.Name(), map[string]string{"current": "assigned from the block the last object came from", "previous": "holding the value that was current during the preceding block"}[spec.what])
 		}
 	}
+}
+
+// c02IsAddrOfPair: e is `&v` with v the received pair.
+func c02IsAddrOfPair(info *types.Info, e ast.Expr, isPair func(ast.Expr) bool) bool {
+	ue, ok := ast.Unparen(e).(*ast.UnaryExpr)
+	return ok && ue.Op == token.AND && objOf(info, ue.X) != nil && isPair(ue.X)
 }
